@@ -12,7 +12,7 @@ OPTION_CHOICES = [
     ('time.pattern_start', [0, 3600, 1800]),
     ('time.report_timestep', [900, 1800, 3600]),
     ('time.report_start', [0, 3600]),
-    ('time.start_clocktime', [0, 3600, 43200, 7200 + 1800]),
+    ('time.start_clocktime', [0, 3600, 43200, 7200 + 1800, 1800, 45000, 86340, 46861]),
     ('time.statistic', ['NONE', 'AVERAGED', 'MINIMUM', 'MAXIMUM', 'RANGE']),
     ('hydraulic.viscosity', [1.0, 1.1, 1.0123456]),
     ('hydraulic.specific_gravity', [1.0, 0.98, 0.9987654]),
